@@ -690,8 +690,11 @@ def rw_ref_patterns(toks, counts):
         if not hit:
             break
         amp_i, arrow_end, binds = hit
-        lets = "".join("let %s = *%s; " % (b, b) for b in binds)
         body0 = next_sig(toks, arrow_end + 1)
+        # an or-pattern binds the same names in each alternative: one re-binding per name
+        head_txt = " ".join(t_.text for t_ in toks[body0:body0 + 120] if is_sig(t_))
+        binds = [b for i_, b in enumerate(binds) if b not in binds[:i_] and ("let %s = * %s ;" % (b, b)) not in head_txt]
+        lets = "".join("let %s = *%s; " % (b, b) for b in binds)
         if toks[body0].kind == "p" and toks[body0].text == "{":
             new_body_pre = toks[:body0 + 1] + relex(" " + lets)
             rest = toks[body0 + 1:]
